@@ -451,3 +451,7 @@ def run(ctx):
                             fail="%s is filtered as %s, documented %s" % (name, got, exp))
     except Skip:
         pass
+
+    # ---- R11.5 the nearest matching ignore file decides, whitelist or ignore (walk owned by C03)
+    ctx.rule("R11.5", "a negated (whitelist) match of a nearer ignore file ends the search just as an ignore match does")
+    ctx.borrow("C03", ["R03.2"], "R11.5", "match_path returns the first node that decides, walking from the nearest directory up")
